@@ -66,17 +66,43 @@ def _nested(items, nest):
     return list(items[:a]) + [list(items[a:b])] + list(items[b:])
 
 
+_AGAIN = None
+
+
 def _run_lib(items, message, env, nest=None):
     """-> (verdict: True/False/'raise', exception, final_stack or None)"""
     Script = _lib()
     flat = items
     items = _nested(items, nest)
+    s = None
     try:
         s = Script(list(items))
         v = s.evaluate(message=message, env_data=dict(env) if env is not None else None)
         verdict, exc = bool(v), None
     except Exception as e:
         verdict, exc = 'raise', e
+    # the same object evaluated once more: a verdict is a function of program, message and environment, not of what an
+    # earlier evaluation left behind
+    global _AGAIN
+    _AGAIN = None
+    if s is not None:
+        try:
+            first_stack = [bytes(x) for x in s.stack]
+        except Exception:
+            first_stack = None
+        try:
+            v2 = s.evaluate(message=message, env_data=dict(env) if env is not None else None)
+            verdict2 = bool(v2)
+        except Exception as e:
+            verdict2 = 'raise'
+        try:
+            second_stack = [bytes(x) for x in s.stack]
+        except Exception:
+            second_stack = None
+        if verdict2 != verdict:
+            _AGAIN = 'first evaluation %r, second evaluation of the same object %r' % (verdict, verdict2)
+        elif verdict is True and first_stack != second_stack:
+            _AGAIN = 'stack after the first evaluation %r, after the second %r' % (first_stack, second_stack)
     stack = None
     try:
         s2 = Script(list(items) + [0x51])
@@ -147,6 +173,9 @@ def check_program(ctx, case):
     ref_ok, ref_stack, ref_why = interp.eval_items(items, checker)
     ref_exec_ok = ref_ok or ref_why in ('empty stack', 'false on top')
     verdict, exc, lib_stack = _run_lib(items, message, env, case.get('nest'))
+    if _AGAIN is not None:
+        raise Discrepancy('evaluated-twice:%s' % (case.get('single_op') or case.get('tag') or 'program'),
+                          '%s for %s' % (_AGAIN, _show(items)), case)
     ops = [interp.NAMES.get(i, '%#x' % i) for i in items if isinstance(i, int)]
     finding_ops = sorted(set(OP_FINDINGS[o] for o in ops if o in OP_FINDINGS))
     kf = finding_ops[0] if len(finding_ops) == 1 else None
